@@ -1053,6 +1053,27 @@ theorem full_update_then_solve_eq_rebuilt (hbeq : ((0 : α) == 0) = true) {P : C
       R.st.data = S'.st.data ∧ RelM SolveObs (S'.solve st) (R.solve st) :=
   run_then_solve_eq_rebuilt hbeq (base_of_new hin hn hperm h) hnp hrun hfine
 
+/-- [S] **`full_update_then_solve_eq_rebuilt` without the construction hypothesis** (C08 ∘ C04): on
+well-formed user input with zero / nonnegative / second-order cones, `n ≥ 1`, `PermForU` (= C04's
+`PermFor`: the ordering is a permutation of the KKT dimension) and `PivotOK`, `DefaultSolver::new` RETURNS
+a solver object `S0` (`Solver.solverNew_ok_of_modelled`), and — if no presolver is recorded — for every
+history of updates and solves that returned with every update accepted or in whole form, the next
+`solve()` on the updated object is the `solve()` of the object rebuilt from its data. -/
+theorem full_update_then_solve_total (hbeq : ((0 : α) == 0) = true) {P : Csc α} {q : Array α}
+    {A : Csc α} {b : Array α} {cones : List (ConeT α)} {st : Solver.Settings α} {perm : Array Nat}
+    (hin : InputOK P q A b cones) (hm : ∀ c ∈ cones, Solver.ConeT.modelled c) (hn : 0 < P.n)
+    (hperm : PermForU P q A b cones st perm) (hpiv : Solver.PivotOK st.lin) :
+    ∃ S0, Solver.new P q A b cones st perm = .ok S0 ∧
+      (S0.st.data.presolver = none →
+        ∀ {ops : List (UOp α)} {S' : Solver α} {outs : List (UOut α)},
+          Solver.runU st S0 ops = .ok (S', outs) → RunFine ops outs →
+          DFrame S0.st.data S'.st.data ∧
+          ∃ R, Solver.rebuilt S'.st.data st perm (Unscale.Solution.new S'.st.data.n S'.st.data.m) = .ok R ∧
+            R.st.data = S'.st.data ∧ RelM SolveObs (S'.solve st) (R.solve st)) := by
+  obtain ⟨S0, h, _⟩ := Solver.solverNew_ok_of_modelled hin hm hn hperm hpiv
+  exact ⟨S0, h, fun hnp _ _ _ hrun hfine =>
+    full_update_then_solve_eq_rebuilt hbeq hin hn hperm h hnp hrun hfine⟩
+
 /-- [S] **every history — rejected partial updates included.**  Without `RunFine`: the next `solve()` on
 the updated object is the solve of the object built from the FINAL data whose KKT system is assembled
 from the matrices `pk`, `ak` that the KKT copy was last synchronised with (`Solver.rebuiltWith`): the
@@ -1070,12 +1091,22 @@ theorem full_update_then_solve_eq_rebuilt_any (hbeq : ((0 : α) == 0) = true) {P
         R.st.data = S'.st.data ∧ RelM SolveObs (S'.solve st) (R.solve st) :=
   run_then_solve_eq_rebuiltWith hbeq (base_of_new hin hn hperm h) hnp hrun
 
+/-- [S] **`solve()` as an operation of a history is `solve()`.**  Until round 8 the shared model
+`Solver.solve` left the norm caches of the data unchanged — the real `DefaultInfo::update` fills them at
+every pass — and the history model used `solveU := solve; fillNorms`.  Now `Solver.solve` itself returns
+the object with the caches filled (`C05.full_solve_fills_norm_caches`; stored in the pass or at the end:
+`C05.full_solve_stores_caches_as_the_code`) and the detour is gone. -/
+theorem history_solve_is_solve (S : Solver α) (st : Solver.Settings α) : S.solveU st = S.solve st :=
+  solveU_eq_solve S st
+
 /-- [S] **the cached norms are refreshed.**  If each norm cache of the data `d` of the updated object is
 absent (every accepted `update_q` / `update_b` clears its cache) or holds what `get_normq` / `get_normb`
 recompute from `d`, then the rebuilt object may be taken WITHOUT caches — `solve()` then recomputes
 `‖q‖, ‖b‖` from the final `q̂, b̂` and the frozen `D⁻¹, E⁻¹, c` (over an ordered field these are the
-∞-norms of the final USER `q`, `b`: `norms_are_final_user_norms`) —: its `solve()` is the `solve()` of
-the object rebuilt with the caches, up to the caches carried in the final state. -/
+∞-norms of the final USER `q`, `b`: `norms_are_final_user_norms`) —: its `solve()` IS the `solve()` of
+the object rebuilt with the caches (same error, or same result INCLUDING the caches of the final state:
+both solves leave them `Some` of the common answers of `get_normq` / `get_normb` — since round 8 the
+model's `solve()` stores the caches it fills; before, the statement held only up to those caches). -/
 theorem full_rebuilt_norms_refreshed (d : ProblemData α) (st : Solver.Settings α) (perm : Array Nat)
     (sol : Unscale.Solution α) {R : Solver α} (hR : Solver.rebuilt d st perm sol = .ok R)
     (hq : d.normq = none ∨ ∃ v, Info.getNormq none d.q d.equilibration.dinv d.equilibration.c = .ok v ∧
@@ -1083,7 +1114,7 @@ theorem full_rebuilt_norms_refreshed (d : ProblemData α) (st : Solver.Settings 
     (hb : d.normb = none ∨ ∃ v, Info.getNormb none d.b d.equilibration.einv = .ok v ∧ d.normb = some v) :
     ∃ R', Solver.rebuilt (d.setNorms none none) st perm sol = .ok R' ∧
       R = R'.setNorms d.normq d.normb ∧
-      R.solve st = (R'.solve st).map (fun r => { r with S := r.S.setNorms d.normq d.normb }) :=
+      R.solve st = R'.solve st :=
   rebuilt_norms_refreshed d st perm sol hR (normsAgree_drop d hq hb)
 
 /-- [S] **the exact post-state of a REJECTED `update_P` / `update_A`, and the solve after it.**  `S`
@@ -1197,6 +1228,18 @@ example : InputOK P #[1] A #[1] ([.nonneg 1] : List (ConeT Int)) ∧ 0 < P.n ∧
   intro op hop
   simp only [exOps, List.mem_cons, List.mem_nil_iff, or_false] at hop
   rcases hop with rfl | rfl | rfl <;> rfl
+
+/-- the two further hypotheses of `full_update_then_solve_total` (cone kinds of the model, `PivotOK`) hold
+on the same instance, and the theorem applies: `new` returns the solver object -/
+example : (∀ c ∈ ([.nonneg 1] : List (ConeT Int)), Solver.ConeT.modelled c) ∧ Solver.PivotOK (st 3).lin
+    ∧ ∃ S0, newSolver 3 = .ok S0 := by
+  have hm : ∀ c ∈ ([.nonneg 1] : List (ConeT Int)), Solver.ConeT.modelled c := by
+    intro c hc
+    simp only [List.mem_cons, List.not_mem_nil, or_false] at hc
+    subst hc; trivial
+  obtain ⟨S0, h, _⟩ := full_update_then_solve_total (by decide) uxInputOK hm (by decide) uxPermFor
+    (exPivotOK 3)
+  exact ⟨hm, exPivotOK 3, S0, h⟩
 
 /-- a solver object over `ℚ` for the field-level example: `P̂ = [8]`, `Â = [6]`, `q̂ = [4]`, `b̂ = [3]`,
 `d = 2`, `e = 3`, `c = 2` (every other component arbitrary) -/
